@@ -30,9 +30,9 @@ def text_of(rec):
 def gather_inputs(chk, tier):
     b = BOUNDS[tier]
     inputs = []
-    for alpha in ("full", "lines", "indent", "interp"):
+    for alpha in ("full", "lines", "indent", "interp", "doc"):
         r = vlib.tlc("LexInputs", "LexInputs.cfg",
-                     constants={"Family": '"strings"', "N": b[alpha], "AlphaName": '"%s"' % alpha})
+                     constants={"Family": '"strings"', "N": b.get(alpha, 6), "AlphaName": '"%s"' % alpha})
         chk.add_tlc(r)
         inputs += r.records
     r = vlib.tlc("LexInputs", "LexInputs.cfg", constants={"Family": '"pairs"', "N": 0, "AlphaName": '"full"'})
